@@ -2,8 +2,8 @@
    Pinned statements only; proofs in proofs/C09P.v (and ConsistP.v). tau = 1e-3 is the code's own
    tolerance constant (relative or absolute, as `almost_le` / `almost_ge` are written). *)
 From Coq Require Import Reals List Bool.
-From AltModel Require Import Num Interp Powertrain Loco Consist Resist Braking TrainStep TrainFull.
-From AltProofs Require Import NumR PowertrainP LocoP C08P ConsistP C09P TrainFullP WholeSplitP.
+From AltModel Require Import Num Interp Powertrain Loco Consist Resist Braking TrainStep TrainFull SpeedPoints PathGeom TrainEnergy WholeSim.
+From AltProofs Require Import NumR PowertrainP LocoP C08P ConsistP C09P C10P TrainFullP WholeSplitP SpeedPointsP PathGeomP TimedTraceP.
 Import ListNotations.
 Open Scope R_scope.
 
@@ -99,3 +99,10 @@ Theorem C09_whole_set_speed_step_request_within : forall (e : Env (F:=R)) times 
   exists c2 dt, consist_set_cur_pwr_max_out (consist_set_pwr_aux (snd x) true) dt = Ok c2 /\
     ss_pwr x' <= cs_pwr_out_max (cn_state c2) /\ - ss_pwr x' <= cs_pwr_dyn_brake_max (cn_state c2).
 Proof. exact ss_full_step_request_within. Qed.
+
+(* ---- the simulation of a DISPATCHED train (walk_timed_path; proofs/TimedTraceP.v): at EVERY step the wheel power asked
+   of the consist lies inside the limits the consist published for that step ---- *)
+Theorem C09_dispatched_train_request_within : forall fuel_bp fuel_steps (net : list LinkR) (tp : TPR) tl rp fmax fb st cache (con : ConsistR) x',
+  sl_timed_walk fuel_bp fuel_steps net tp tl rp fmax fb st cache con = Ok x' -> cinv con ->
+  tw_trace fmax within_step ({| sl_st := st; sl_cache := cache; sl_fb := fb; sl_idx := 0 |}, con) x'.
+Proof. exact sl_timed_walk_request_within. Qed.
